@@ -500,7 +500,7 @@ def main(chk: Check):
         import json
         plan.append((decode_case(json.loads(p.read_text())), True))
     seq = list(gen_seq(rng))
-    if not (chk.thorough or chk.fingerprint_changed):
+    if not (chk.thorough):
         # quick: every sequence up to 3 attempts, a seeded sample of the 4-attempt ones
         long4 = sorted({c["tag"][1] for c in seq if c["attempts"] == 4})
         keep4 = set(rng.sample(long4, 60))
